@@ -96,13 +96,15 @@ def _subject(kind, h):
         # single output: a multi-output handler answers with a dict keyed by output names (its own contract)
         spec = T.interrupt("ni", ["a", "b"], ["o1"], defaults={"b": list(DB)}, types={"a": int, "b": str}, behav="answer")
         return build_node(spec, h), ["a", "b"], ["o1"], spec
-    if kind in ("graph", "graph-map"):
+    if kind in ("graph", "graph-map", "graph-map2"):
         inner = T.prog([T.fn("sub", ["x", "z", "y"], ["s", "t"], defaults={"y": ["dflt", "y"]}, types={"x": int, "y": str, "z": float})], name="gn", bind={"z": ["bound", "z"]})
         spec = T.gnode("gn", inner)
         n = build_node(spec, h)
         ins = list(n.inputs)
         if kind == "graph-map":
             n = n.map_over("x", clone=["y"])
+        if kind == "graph-map2":
+            n = n.map_over("y", "x", mode="product")  # declared order differs from the inner graph's input order
         return n, ins, ["s", "t"], spec
     raise ValueError(kind)
 
@@ -160,6 +162,10 @@ def check_static(kind, node, mi, mo, name, pool):
                 out.append(("map_over", f"map_over params {mc and mc[0]} expected {[mi.current_of('x')]}"))
             if node._clone != [mi.current_of("y")]:
                 out.append(("clone", f"clone list {node._clone} expected {[mi.current_of('y')]}"))
+        if kind == "graph-map2":
+            mc = node.map_config
+            if mc is None or list(mc[0]) != [mi.current_of("y"), mi.current_of("x")]:
+                out.append(("map_over", f"map_over params {mc and mc[0]} expected {[mi.current_of('y'), mi.current_of('x')]} (declared order)"))
     return out
 
 
@@ -221,6 +227,16 @@ def check_exec(kind, node, mi, mo, h, runner="sync"):
                 for i, o in enumerate(mo.order):
                     if res.values[mo.current_of(o)][1] != i:
                         out.append(("graphnode-result-position", f"output {mo.current_of(o)} does not hold original output {o}"))
+        elif kind == "graph-map2":
+            xs, ys = [("i", 0), ("i", 1)], [("j", 0), ("j", 1), ("j", 2)]
+            res = run_sync(g, {mi.current_of("x"): list(xs), mi.current_of("y"): list(ys)}, h)
+            calls = h.calls[n0:]
+            got = [(c.args.get("y"), c.args.get("x")) for c in calls]
+            exp = [(y, x) for y in ys for x in xs]  # row-major in the DECLARED map_over order (y, x)
+            if got != exp or any(c.args.get("z") != ("bound", "z") for c in calls):
+                out.append(("graphnode-map-product-order", f"product map visited (y, x) = {jsonable(got)} expected {jsonable(exp)}"))
+            if set(res.values) != set(mo.names) or any(len(v) != 6 for v in res.values.values()):
+                out.append(("graphnode-map-result", f"results {jsonable(res.values)} under {sorted(mo.names)} expected lists of 6"))
         else:
             ins = {mi.current_of("x"): [("i", 0), ("i", 1)], mi.current_of("y"): ["cfg"]}
             res = run_sync(g, ins, h)
@@ -328,7 +344,7 @@ def run_history(kind, hist, acc, via_ctor=False):
         try:
             vs += check_exec(kind, node, mi, mo, h)
         except Exception as e:  # noqa: BLE001
-            vs.append(("execution-failed" if kind not in ("graph", "graph-map") else "graphnode-execution-failed", f"running the renamed node failed: {type(e).__name__}: {str(e)[:150]}"))
+            vs.append(("execution-failed" if kind not in ("graph", "graph-map", "graph-map2") else "graphnode-execution-failed", f"running the renamed node failed: {type(e).__name__}: {str(e)[:150]}"))
     if not vs and kind in ("fn", "fn2") and not via_ctor:
         try:
             vs += check_cached_pair(kind, spec, hist, mi, mo, h)
@@ -364,13 +380,13 @@ def histories(kind, K, in_names, out_names):
     yield from rec(K, list(in_names), list(out_names), [])
 
 
-SUBJECTS = {"fn": (["a", "b", "c"], ["o1", "o2"]), "fn2": (["a", "b"], ["o1"]), "ifelse": (["a", "b"], []), "route": (["a", "b"], []), "interrupt": (["a", "b"], ["o1"]), "graph": (None, ["s", "t"]), "graph-map": (None, ["s", "t"])}
+SUBJECTS = {"fn": (["a", "b", "c"], ["o1", "o2"]), "fn2": (["a", "b"], ["o1"]), "ifelse": (["a", "b"], []), "route": (["a", "b"], []), "interrupt": (["a", "b"], ["o1"]), "graph": (None, ["s", "t"]), "graph-map": (None, ["s", "t"]), "graph-map2": (None, ["s", "t"])}
 
 
 def _plan(tier):
     if tier == "quick":
-        return [("fn2", 1), ("fn2", 2), ("fn2", 3), ("fn", 1), ("fn", 2), ("ifelse", 2), ("route", 2), ("interrupt", 2), ("graph", 1), ("graph", 2), ("graph-map", 1), ("graph-map", 2)]
-    return [("fn2", 1), ("fn2", 2), ("fn2", 3), ("fn2", 4), ("fn", 1), ("fn", 2), ("fn", 3), ("ifelse", 3), ("route", 3), ("interrupt", 2), ("interrupt", 3), ("graph", 1), ("graph", 2), ("graph", 3), ("graph-map", 2), ("graph-map", 3)]
+        return [("fn2", 1), ("fn2", 2), ("fn2", 3), ("fn", 1), ("fn", 2), ("ifelse", 2), ("route", 2), ("interrupt", 2), ("graph", 1), ("graph", 2), ("graph-map", 1), ("graph-map", 2), ("graph-map2", 1), ("graph-map2", 2)]
+    return [("fn2", 1), ("fn2", 2), ("fn2", 3), ("fn2", 4), ("fn", 1), ("fn", 2), ("fn", 3), ("ifelse", 3), ("route", 3), ("interrupt", 2), ("interrupt", 3), ("graph", 1), ("graph", 2), ("graph", 3), ("graph-map", 2), ("graph-map", 3), ("graph-map2", 2), ("graph-map2", 3)]
 
 
 def shards(tier, seed):
